@@ -53,6 +53,10 @@ template <typename array_t> static std::string do_norm(const array_t& arr, const
 template <typename array_t> static std::string do_trace(const array_t& arr, const Args& a) {
     bool eager = get(a, "api") == "array";
     int offset = (int)integer(a, "offset"), a1 = (int)integer(a, "axis1"), a2 = (int)integer(a, "axis2");
+    // form=d0: trace(a), form=d1: trace(a, offset) - the DEFAULT axis pair (NumPy: the first two axes)
+    std::string form = has(a, "form") ? get(a, "form") : "full";
+    if (form == "d0") return eager ? c08::emit(na::trace(arr)) : c08::emit(view::trace(arr));
+    if (form == "d1") return eager ? c08::emit(na::trace(arr, offset)) : c08::emit(view::trace(arr, offset));
     if (!eager) return c08::emit(view::trace(arr, offset, a1, a2));
     return c08::emit(na::trace(arr, offset, a1, a2));
 }
